@@ -195,12 +195,12 @@ def r3(ctx, R):
     ed = edit_routine(ctx)
     ld = ctx.m.funcs[fc.methods["load_from_disk"]]
     kinds = {}
+    from .c02 import splitter_calls
+
     for f in (ld, ed):
-        for st in ctx.m.walk_own(f.node):
-            if isinstance(st, ast.Assign) and isinstance(st.value, ast.Call):
-                k = splitter_of(ctx, f, st.value)
-                if k[0] in ("regex", "str.splitlines", "str.split"):
-                    kinds[f.short] = (k[0], k[1].text if k[0] == "regex" else unparse(k[1]), st, f, k)
+        for st, call in splitter_calls(ctx, f):
+            k = splitter_of(ctx, f, call)
+            kinds[f.short] = (k[0], k[1].text if k[0] == "regex" else unparse(k[1]), st, f, k)
     if len(kinds) < 2:
         raise AnalysisError("splitter use sites not found on both ingestion paths")
     vals = {(v[0], v[1]) for v in kinds.values()}
